@@ -1,3 +1,4 @@
+\* negative twin: only the property it must violate is checked (TLC reports the first violation it meets)
 SPECIFICATION Spec
 CONSTANTS
   Proc = {"w1", "w2", "r"}
@@ -15,16 +16,5 @@ CONSTANTS
   Budget <- Budget1
   Variant = "index_before_pack"
 VIEW View
-INVARIANTS
-  SnapshotData
-  SnapshotIndexed
-  IndexSound
-  ReaderOK
-  TagNeverLoses
-  RewriteNeverLoses
-PROPERTIES
-  W1
-  W2
-  D1
-  D2
+INVARIANT IndexSound
 CHECK_DEADLOCK FALSE
